@@ -153,7 +153,7 @@ class KernelSim(WorldBase):
                     continue
                 hflow = g.choice(flows)
                 s = self._gen_session(g, case, hflow, role="history",
-                                      prefix=g.choice(["tgt", "tgt", "hist"]))
+                                      prefix=g.choice(["tgt", "tgt", "hist", "tgt-x"]))
                 self._gen_faults(f, s, cfg["faults"])
                 evs.append(["session", s])
             target_ev = ["session", dict(target, role="target", ncu=g.choice(THRESHOLDS))]
@@ -353,6 +353,8 @@ class KernelSim(WorldBase):
                 evs.append(["pairs", {"pairs": pairs, "outer": 0, "model": model, "mask": (1 << 48) - 1}])
                 evs.append(["pairs", {"pairs": pairs, "outer": outer, "model": model, "mask": g.choice([0, (1 << 48) - 1]),
                                       "badcall": True}])
+                evs.append(["pairs", {"pairs": pairs, "outer": g.choice([1, 2]), "model": model, "mask": (1 << 48) - 1,
+                                      "rival": True}])
             if g.random() < 0.6:
                 # the same fibers walked tile-wise: only coordinates below hi are wanted
                 hi = g.randint(1, S)
@@ -757,6 +759,15 @@ class KernelSim(WorldBase):
             # a program that measures several configurations keeps each report and tabulates them afterwards:
             # the report of an earlier session stays what it was when a later session begins and runs
             for n0, held, asread in self.held_dumps:
+                try:
+                    now_ops = [Compute.numOps(held, op) for op in ("mul", "update", "add")]
+                    then_ops = [Compute.numOps(asread, op) for op in ("mul", "update", "add")]
+                except Exception:
+                    now_ops = then_ops = None
+                if now_ops != then_ops:
+                    self.V("C15", "C15.isolated-counts", "session",
+                           f"Compute.numOps on the report of session {n0} gave {then_ops} (mul/update/add) for that session's "
+                           f"counts; after session {self.nsess} the same report gives {now_ops}")
                 if held != asread:
                     self.V("C15", "C15.isolated-counts", "session",
                            f"the report dump() returned after session {n0} read {asread} then; after session {self.nsess} "
@@ -792,6 +803,17 @@ class KernelSim(WorldBase):
             # (its trace files are read here, as a user would between two sessions)
             self._judge_exact(s, out, counts)
             self.probe("history_session_judged")
+            if s["prefix"] == "tgt-x":
+                # a finished session under a prefix that merely begins like the target's: its files are its own
+                kf = dict(getattr(self, "kept_files", {}))
+                # (files of an even earlier tgt-x session that this one did not register again keep their old content
+                #  only if this session did not write them)
+                kf = {k: v for k, v in kf.items() if k not in out["files"]}
+                kf.update({k: v for k, v in out["files"].items() if k.startswith("tgt-x-")})
+                self.kept_files = kf
+        if role == "history" and s["prefix"] == "tgt-x" and not (
+                not (s.get("abort_at") or s.get("fail_at") or s.get("break_at")) and s.get("end", "normal") == "normal" and not fired):
+            self.kept_files = {}        # a later, disturbed session under the same prefix owns those files now
         self._operands_unchanged("session")
         return res
 
@@ -840,6 +862,15 @@ class KernelSim(WorldBase):
         if self.prop != "C15":
             return
         self._judge_exact(s, out, counts)
+        for name, text in sorted(getattr(self, "kept_files", {}).items()):
+            path = os.path.join(self.scratch, name)
+            now = open(path).read() if os.path.exists(path) else None
+            if now != text:
+                self.V("C15", "C15.isolated-traces", "session",
+                       f"trace file {name} of an earlier, finished session (prefix tgt-x) "
+                       f"{'is gone' if now is None else 'was rewritten'} after a later session with prefix tgt")
+        if getattr(self, "kept_files", None):
+            self.probe("related_prefix_files_checked")
         ref = self.first.get(s["prefix"])
         off = self.off.get(s["prefix"])
         if off is not None:
@@ -1803,6 +1834,16 @@ class KernelSim(WorldBase):
             isect["obj"].addTraces(*ts)
         except Exception as e:
             isect["err"] = f"{type(e).__name__}: {str(e)[:60]}"
+        if isect.get("rival") and isect["drains"] == 1 and isect.get("obj") is not None:
+            # another model object of the same kind, watching an intersection at another loop depth, starts now
+            try:
+                rival = type(isect["obj"])()
+                t1 = [["X_pos", "X", "fiber_pos"], [0, 1, 0], [1, 3, 1]]
+                t2 = [["X_pos", "X", "fiber_pos"], [0, 1, 0], [1, 2, 1], [2, 3, 2]]
+                rival.addTraces(*([t1] if len(ts) == 1 else [t1, t2]))
+                self.probe("rival_model_started_in_between")
+            except Exception:
+                pass
 
     def _judge_c19(self, s, out, expect, isect):
         if self.prop != "C19":
@@ -1878,7 +1919,8 @@ class KernelSim(WorldBase):
         for f in fa + fb:
             f.getRankAttrs().setId("K")
         outer = a.get("outer", 1)
-        isect = {"obj": obj, "types": types, "rank": "K", "drains": 0, "err": None, "badcall": bool(a.get("badcall"))}
+        isect = {"obj": obj, "types": types, "rank": "K", "drains": 0, "err": None, "badcall": bool(a.get("badcall")),
+                 "rival": bool(a.get("rival"))}
         mask = a["mask"]
         started = [False]
         Metrics.beginCollect()
